@@ -4,6 +4,7 @@
 From Coq Require Import ZArith QArith Qround List Bool Lia Lqa.
 From Pandora Require Import Lib.Arr Lib.NpArr Lib.Blocks Lib.BlockSkeleton Model.Filters Model.FiltersNp
                             Proofs.NpArrP Proofs.FiltersP Gen.FilterKernels.
+From Pandora Require Proofs.SkelFiltersP.
 Import ListNotations.
 Open Scope Z_scope.
 
@@ -145,3 +146,162 @@ Proof.
     + intros a b. unfold bil_weight. rewrite Ec. destruct (data (i + a) (j + b)); reflexivity.
     + intros a b. unfold bil_weight. rewrite Ec. destruct (data (i + a) (j + b)); reflexivity.
 Qed.
+
+(* ================================================================== the written expressions are
+   pointwise in the first two axes: what they yield for element (i, j) of ANY chunk
+   W[y0:y1, x0:x1] holding (i, j) is what they yield for the 1 x 1 chunk W[i:i+1, j:j+1]
+   (the reading of the block loop by Model/FiltersNp.skel_block_loop) *)
+
+Theorem gen_bilateral_kernel_chunk : forall ng W G sc off my mx w gW gG y0 y1 x0 x1 i j,
+  is4 W my mx w w gW -> is2 G w w gG -> 0 <= off < w ->
+  0 <= y0 -> y1 <= my -> 0 <= x0 -> x1 <= mx -> y0 <= i < y1 -> x0 <= j < x1 ->
+  let K := fun X => g_bilateral_kernel ng X G sc off in
+  err (K (np_slice01 W y0 y1 x0 x1)) = false /\ shp (K (np_slice01 W y0 y1 x0 x1)) = [y1 - y0; x1 - x0] /\
+  elt (K (np_slice01 W y0 y1 x0 x1)) [i - y0; j - x0] = kernel_at K W i j /\
+  kernel_at K W i j = bil_formula (ng sc) (gW i j) gG w off.
+Proof.
+  intros ng W G sc off my mx w gW gG y0 y1 x0 x1 i j HW HG Hoff ? ? ? ? Hi Hj K.
+  destruct (gen_bilateral_kernel_is ng _ G sc off _ _ _ _ gG
+              (slice01_4 _ W _ _ _ _ _ y0 y1 x0 x1 HW ltac:(lia) ltac:(lia) ltac:(lia) ltac:(lia)) HG Hoff) as (He & Hs & Hg).
+  destruct (gen_bilateral_kernel_is ng _ G sc off _ _ _ _ gG
+              (slice01_4 _ W _ _ _ _ _ i (i + 1) j (j + 1) HW ltac:(lia) ltac:(lia) ltac:(lia) ltac:(lia)) HG Hoff) as (_ & _ & Hg1).
+  assert (E1 : kernel_at K W i j = bil_formula (ng sc) (gW i j) gG w off).
+  { unfold kernel_at, K. rewrite Hg1 by lia. rewrite !Z.add_0_r. reflexivity. }
+  repeat split; try assumption.
+  rewrite E1. unfold K. rewrite Hg by lia. replace (y0 + (i - y0)) with i by lia. replace (x0 + (j - x0)) with j by lia.
+  reflexivity.
+Qed.
+
+Lemma nanmedian_23_is : forall W my mx w gW, is4 W my mx w w gW ->
+  is2 (np_nanmedian_23 W) my mx (fun i j => nanmedian (win_list w w (gW i j))).
+Proof. intros. unfold np_nanmedian_23. apply reduce_23. assumption. Qed.
+
+Theorem gen_nanmedian_chunk : forall W my mx w gW y0 y1 x0 x1 i j,
+  is4 W my mx w w gW ->
+  0 <= y0 -> y1 <= my -> 0 <= x0 -> x1 <= mx -> y0 <= i < y1 -> x0 <= j < x1 ->
+  let K := fun X => np_nanmedian_23 X in
+  err (K (np_slice01 W y0 y1 x0 x1)) = false /\ shp (K (np_slice01 W y0 y1 x0 x1)) = [y1 - y0; x1 - x0] /\
+  elt (K (np_slice01 W y0 y1 x0 x1)) [i - y0; j - x0] = kernel_at K W i j /\
+  kernel_at K W i j = nanmedian (win_list w w (gW i j)).
+Proof.
+  intros W my mx w gW y0 y1 x0 x1 i j HW ? ? ? ? Hi Hj K.
+  destruct (nanmedian_23_is _ _ _ _ _
+              (slice01_4 _ W _ _ _ _ _ y0 y1 x0 x1 HW ltac:(lia) ltac:(lia) ltac:(lia) ltac:(lia))) as (He & Hs & Hg).
+  destruct (nanmedian_23_is _ _ _ _ _
+              (slice01_4 _ W _ _ _ _ _ i (i + 1) j (j + 1) HW ltac:(lia) ltac:(lia) ltac:(lia) ltac:(lia))) as (_ & _ & Hg1).
+  assert (E1 : kernel_at K W i j = nanmedian (win_list w w (gW i j))).
+  { unfold kernel_at, K. rewrite Hg1 by lia. rewrite !Z.add_0_r. reflexivity. }
+  repeat split; try assumption.
+  rewrite E1. unfold K. rewrite Hg by lia. replace (y0 + (i - y0)) with i by lia. replace (x0 + (j - x0)) with j by lia.
+  reflexivity.
+Qed.
+
+(* ================================================================== the block loop hole *)
+
+(* the hole instantiated with a GENERATED skeleton accepted by filter_skeleton_ok: for every
+   well-formed window array W (my x mx windows of size win) of an ny x nx array T, the loop writes
+   K's value for window (r - win/2, c - win/2) on the rectangle [win/2, win/2 + my) x [win/2,
+   win/2 + mx) and leaves every other pixel of T as it is *)
+Lemma skel_block_loop_is : forall k sk K W T my mx win gW ny nx gT,
+  filter_skeleton_ok k sk = true ->
+  is4 W my mx win win gW -> is2 T ny nx gT -> 0 <= win -> 0 <= my -> 0 <= mx ->
+  is2 (skel_block_loop sk K W T) ny nx
+      (fun r c => if (win / 2 <=? r) && (r <? win / 2 + my) && (win / 2 <=? c) && (c <? win / 2 + mx)
+                  then kernel_at K W (r - win / 2) (c - win / 2) else gT r c).
+Proof.
+  intros k sk K W T my mx win gW ny nx gT Hok HW HT Hwin Hmy Hmx.
+  destruct (is4_shape _ _ _ _ _ _ _ HW) as (S0 & S1 & S2 & _). destruct (is2_shape _ _ _ _ _ HT) as (T0 & T1).
+  destruct HW as (EW & _ & _). destruct HT as (ET & _ & HgT).
+  unfold skel_block_loop, is2. cbn [err shp elt]. rewrite EW, ET, S0, S1, S2, T0, T1.
+  repeat split; auto. intros r c Hr Hc.
+  destruct (SkelFiltersP.filter_skeleton_ok_parts _ sk Hok) as (_ & _ & _ & wr & Hw & _).
+  unfold sk_target. rewrite Hw. cbn [nth_error].
+  pose proof (SkelFiltersP.filter_loop_generic k sk wr (fun i j => kernel_at K W i j) (fun _ i j => kernel_at K W i j)
+                (fun _ _ => eq_refl) Hok Hw win ny nx my mx ny nx (fun _ => 0) (fun2 T) r c Hwin Hmy Hmx) as HG.
+  etransitivity; [symmetry; exact HG|]. clear HG.
+  destruct (SkelFiltersP.filter_loop_params _ sk Hok) as (HB & _).
+  rewrite loop2_spec by assumption.
+  destruct ((win / 2 <=? r) && (r <? win / 2 + my) && (win / 2 <=? c) && (c <? win / 2 + mx)); [reflexivity|].
+  unfold fun2. apply HgT; assumption.
+Qed.
+
+(* ================================================================== MedianFilter.median_filter *)
+
+Lemma py_int_div_half : forall w, 0 <= w -> py_int_div w 2 = w / 2.
+Proof. intros. unfold py_int_div. apply Z.quot_div_nonneg; lia. Qed.
+
+(* generated median_filter with the generated skeleton = the model, at every pixel of the image,
+   for every image (also smaller than the filter), every filter size w >= 0 *)
+Theorem gen_median_filter_is_model : forall sk w D ny nx data,
+  filter_skeleton_ok KNanMedian sk = true -> 0 <= w -> is2 D ny nx data ->
+  is2 (g_median_filter (skel_block_loop sk) w D) ny nx (Filters.median_filter (sk_B sk) w ny nx data).
+Proof.
+  intros sk w D ny nx data Hok Hw HD. unfold g_median_filter, Filters.median_filter. cbv zeta.
+  destruct (is2_shape _ _ _ _ _ HD) as (S0 & S1). rewrite S0, S1. unfold np_copy.
+  destruct ((ny <? w) || (nx <? w)) eqn:Esmall; [exact HD|].
+  apply orb_false_iff in Esmall. destruct Esmall as [Ey Ex]. apply Z.ltb_ge in Ey, Ex.
+  pose proof (sliding_window_4 _ D _ _ _ w w HD ltac:(lia) ltac:(lia)) as HW.
+  pose proof (skel_block_loop_is _ sk (fun X => np_nanmedian_23 X) _ _ _ _ _ _ _ _ _ Hok HW HD Hw ltac:(lia) ltac:(lia)) as HL.
+  pose proof (setitem_mask_2 _ _ _ None _ _ _ _ HL (map2 _ _ o_none _ _ _ _ HD)) as HR.
+  eapply is2_ext; [exact HR|]. intros r c Hr Hc. cbv beta.
+  destruct (SkelFiltersP.filter_loop_params _ sk Hok) as (HB & _).
+  rewrite loop2_spec by lia.
+  destruct (data r c) as [v|] eqn:Ed; cbn [o_none is_none]; [|reflexivity].
+  destruct ((w / 2 <=? r) && (r <? w / 2 + (ny - w + 1)) && (w / 2 <=? c) && (c <? w / 2 + (nx - w + 1))) eqn:Ein;
+    [|reflexivity].
+  destruct (gen_nanmedian_chunk _ _ _ _ _ 0 (ny - w + 1) 0 (nx - w + 1) (r - w / 2) (c - w / 2) HW) as (_ & _ & _ & E); try lia.
+  rewrite E. reflexivity.
+Qed.
+
+(* ================================================================== the two filter_disparity:
+   NaN masking of the invalid pixels, the filter (a hole), write-back on finite pixels only *)
+
+Definition writeback (inv : Z) (disp : Filters.map2) (mask : Z -> Z -> Z) (filtered : Filters.map2 -> Z -> Z -> oq) : Z -> Z -> oq :=
+  let md := masked_data inv disp mask in
+  fun r c => if is_none (md r c) then disp r c else filtered md r c.
+
+Lemma masked_is : forall ds ny nx disp mask,
+  is2 (ds_disp ds) ny nx disp -> is2 (ds_mask ds) ny nx mask ->
+  is2 (np_setitem_mask (np_copy (ds_disp ds)) (np_where (np_and_ne0 (ds_mask ds) Constants.msk_pixel_invalid)) None)
+      ny nx (masked_data Constants.msk_pixel_invalid disp mask).
+Proof.
+  intros ds ny nx disp mask Hd Hm. unfold np_copy, np_where, np_and_ne0.
+  eapply is2_ext; [apply (setitem_mask_2 _ _ _ None _ _ _ _ Hd (map2 _ _ _ _ _ _ _ Hm))|].
+  intros; reflexivity.
+Qed.
+
+Theorem gen_median_filter_disparity_is : forall h fs ds ny nx disp mask (M : Filters.map2 -> Z -> Z -> oq),
+  is2 (ds_disp ds) ny nx disp -> is2 (ds_mask ds) ny nx mask ->
+  (forall D data, is2 D ny nx data -> is2 (h fs D) ny nx (M data)) ->
+  let ds' := g_median_filter_disparity h fs ds in
+  ds_mask ds' = ds_mask ds /\ ds_band ds' = ds_band ds /\
+  is2 (ds_disp ds') ny nx (writeback Constants.msk_pixel_invalid disp mask M).
+Proof.
+  intros h fs ds ny nx disp mask M Hd Hm Hh. unfold g_median_filter_disparity. cbv zeta.
+  split; [reflexivity|]. split; [reflexivity|]. cbn [ds_disp ds_set_disp].
+  pose proof (masked_is ds ny nx disp mask Hd Hm) as Hmd.
+  pose proof (setitem_mask_from_2 _ _ _ _ _ _ _ _ _ Hd (map2 _ _ o_some _ _ _ _ Hmd) (Hh _ _ Hmd)) as HR.
+  eapply is2_ext; [exact HR|]. intros r c Hr Hc. cbv beta. unfold writeback. cbv zeta.
+  destruct (masked_data Constants.msk_pixel_invalid disp mask r c); reflexivity.
+Qed.
+
+Theorem gen_bilateral_filter_disparity_is : forall h ss sc ds ny nx disp mask (M : Filters.map2 -> Z -> Z -> oq),
+  is2 (ds_disp ds) ny nx disp -> is2 (ds_mask ds) ny nx mask ->
+  (forall D data, is2 D ny nx data -> is2 (h D ss sc) ny nx (M data)) ->
+  let ds' := g_bilateral_filter_disparity h ss sc ds in
+  ds_mask ds' = ds_mask ds /\ ds_band ds' = ds_band ds /\
+  is2 (ds_disp ds') ny nx (writeback Constants.msk_pixel_invalid disp mask M).
+Proof.
+  intros h ss sc ds ny nx disp mask M Hd Hm Hh. unfold g_bilateral_filter_disparity. cbv zeta.
+  split; [reflexivity|]. split; [reflexivity|]. cbn [ds_disp ds_set_disp].
+  pose proof (masked_is ds ny nx disp mask Hd Hm) as Hmd.
+  pose proof (setitem_mask_from_2 _ _ _ _ _ _ _ _ _ Hd (map2 _ _ o_some _ _ _ _ Hmd) (Hh _ _ Hmd)) as HR.
+  eapply is2_ext; [exact HR|]. intros r c Hr Hc. cbv beta. unfold writeback. cbv zeta.
+  destruct (masked_data Constants.msk_pixel_invalid disp mask r c); reflexivity.
+Qed.
+
+(* the model's filter_disparity is that write-back of the model's filter *)
+Lemma model_median_writeback : forall inv B w ny nx disp mask r c,
+  fst (median_filter_disparity inv B w ny nx disp mask) r c
+  = writeback inv disp mask (Filters.median_filter B w ny nx) r c.
+Proof. intros. reflexivity. Qed.
